@@ -318,6 +318,92 @@ fn g_formats_random(src: &mut Src, obs: &mut Obs) -> CaseResult {
     check_formats_list(&list, obs)
 }
 
+/// list lengths around every power of two a private "entries looked at" bound could sit on
+const LATE_LENS: [usize; 24] = [3, 7, 8, 9, 15, 16, 17, 24, 31, 32, 33, 34, 48, 63, 64, 65, 66, 100, 127, 128, 129, 200, 257, 300];
+
+fn late_len(src: &mut Src) -> usize {
+    if src.chance(1, 4) {
+        src.range(1, 320)
+    } else {
+        *src.pick(&LATE_LENS)
+    }
+}
+
+/// a position in 0..n: anywhere, or one of the last three
+fn late_pos(src: &mut Src, n: usize) -> usize {
+    match src.below(4) {
+        0 => n - 1,
+        1 => n.saturating_sub(1 + src.below(3)),
+        _ => src.below(n),
+    }
+}
+
+/// Long lists in which nothing is supported except one to three entries at chosen positions -
+/// in particular far behind the point at which a decoder that only looks at the first so many
+/// entries (or counts entries in a narrow integer) would have stopped.
+fn g_params_late(src: &mut Src, obs: &mut Obs) -> CaseResult {
+    let n = late_len(src);
+    let k = 1 + src.below(3);
+    let mut at: Vec<(usize, i64)> = Vec::new();
+    for _ in 0..k {
+        at.push((late_pos(src, n), if src.bool() { -7 } else { -8 }));
+    }
+    let filler = src.below(4);
+    let list = Value::Array(
+        (0..n)
+            .map(|i| {
+                if let Some((_, alg)) = at.iter().find(|(p, _)| *p == i) {
+                    return Value::Map(vec![ks("alg", Value::int(*alg)), ks("type", Value::text("public-key"))]);
+                }
+                match (filler + if filler == 3 { i } else { 0 }) % 3 {
+                    0 => Value::Map(vec![ks("alg", Value::int(-257)), ks("type", Value::text("public-key"))]),
+                    1 => Value::Map(vec![ks("alg", Value::int(-7)), ks("type", Value::text("private-key"))]),
+                    _ => Value::Map(vec![ks("alg", Value::int(-(i as i64) - 9)), ks("type", Value::text("public-key"))]),
+                }
+            })
+            .collect(),
+    );
+    obs.label("params:late");
+    if at.iter().any(|(p, _)| *p >= 32) {
+        obs.label("params:late:first-kept>=32");
+    }
+    obs.sample_with(|| json!({"kind": "params-late", "entries": n, "supported_at": at.iter().map(|(p, _)| *p).collect::<Vec<_>>(), "expected": spec_filter_params(&list).unwrap()}));
+    check_params_list(&list, obs)
+}
+pub const G_PL: Gen = Gen { name: "c14_params_late", f: g_params_late };
+
+/// The same for format lists: only unknown formats except known ones at chosen positions, or only
+/// known formats except one unknown one at a chosen position (the flag must still be raised).
+fn g_formats_late(src: &mut Src, obs: &mut Obs) -> CaseResult {
+    let n = late_len(src);
+    let unknown_filler = src.bool();
+    let k = 1 + src.below(2);
+    let mut at: Vec<usize> = Vec::new();
+    for _ in 0..k {
+        at.push(late_pos(src, n));
+    }
+    let first = src.bool();
+    let list = Value::Array(
+        (0..n)
+            .map(|i| {
+                let marked = at.contains(&i);
+                if unknown_filler == marked {
+                    // known format: the filler alternates or repeats, a marked one is either
+                    Value::text(if (i % 2 == 0) == first { "packed" } else { "none" })
+                } else {
+                    Value::text(["tpm", "apple", "android-key", "fido-u2f", ""][i % 5])
+                }
+            })
+            .collect(),
+    );
+    obs.label("formats:late");
+    if at.iter().any(|p| *p >= 32) {
+        obs.label(if unknown_filler { "formats:late:known>=32" } else { "formats:late:unknown>=32" });
+    }
+    check_formats_list(&list, obs)
+}
+pub const G_FL: Gen = Gen { name: "c14_formats_late", f: g_formats_late };
+
 /// every small algorithm identifier (COSE registry range and around): words [alg + 70000 (raw), shape]
 fn g_alg_sweep(src: &mut Src, obs: &mut Obs) -> CaseResult {
     let alg = src.word() as i64 - 70_000;
@@ -364,10 +450,10 @@ pub const G_PC: Gen = Gen { name: "c14_params", f: g_params_concrete };
 pub const G_FC: Gen = Gen { name: "c14_formats", f: g_formats_concrete };
 
 pub fn gens() -> Vec<Gen> {
-    vec![G_PS, G_FS, G_PR, G_FR, G_PC, G_FC, G_AS, G_WIDE_ALG]
+    vec![G_PS, G_FS, G_PR, G_FR, G_PC, G_FC, G_AS, G_WIDE_ALG, G_PL, G_FL]
 }
 
-pub const RULE: &str = "Exhaustive: all 5 461 lists of length 0..6 over {ES256, EdDSA, unknown algorithm with type public-key, known algorithm with unknown type} and all 1 365 lists of length 0..5 over {packed, none, tpm, other text}. proptest: parameter lists of up to 64 entries (12/13/64 boosted) with alg over the whole i32 range (-7/-8 boosted), type strings of 0..32 bytes (public-key and near misses boosted), entry member order either way; format lists up to 40 entries. Lists with identifiers outside the 32-bit range (congruent to -7/-8 modulo 2^32 and 2^16, the i64/u64 extremes) next to genuine entries: either rejected, or filtered as if the wide entry named an unknown algorithm. Each parameter list is observed stand-alone, as MakeCredential member 4 and as GetInfo member 0x0A (decode side); each format list as MakeCredential member 0x0B and GetAssertion member 9. Oracle: entries.filter(type == public-key and alg in {-7,-8}).take(2) in order; known = entries.filter(in {packed,none}).take(2) in order, unknown flag = any other entry; decoding never fails. Non-trivial: a list with at least one dropped and one kept entry; evaluations count observation paths.";
+pub const RULE: &str = "Exhaustive: all 5 461 lists of length 0..6 over {ES256, EdDSA, unknown algorithm with type public-key, known algorithm with unknown type} and all 1 365 lists of length 0..5 over {packed, none, tpm, other text}. proptest: parameter lists of up to 64 entries (12/13/64 boosted) with alg over the whole i32 range (-7/-8 boosted), type strings of 0..32 bytes (public-key and near misses boosted), entry member order either way; format lists up to 40 entries. Positional lists of 1..320 entries (lengths around every power of two boosted) in which everything is unsupported except one to three supported entries at chosen positions (anywhere, or among the last three), and format lists that are all unknown except known formats at chosen positions or all known except one unknown format at a chosen position. Lists with identifiers outside the 32-bit range (congruent to -7/-8 modulo 2^32 and 2^16, the i64/u64 extremes) next to genuine entries: either rejected, or filtered as if the wide entry named an unknown algorithm. Each parameter list is observed stand-alone, as MakeCredential member 4 and as GetInfo member 0x0A (decode side); each format list as MakeCredential member 0x0B and GetAssertion member 9. Oracle: entries.filter(type == public-key and alg in {-7,-8}).take(2) in order; known = entries.filter(in {packed,none}).take(2) in order, unknown flag = any other entry; decoding never fails. Non-trivial: a list with at least one dropped and one kept entry; evaluations count observation paths.";
 pub const ASSUMPTIONS: &[&str] = &["the filter rules are transcribed from the property statement"];
 
 pub fn run(ctx: &mut Ctx) {
@@ -392,5 +478,7 @@ pub fn run(ctx: &mut Ctx) {
     ctx.random(&G_PR, &[], ctx.t(8_000, 400_000), 900);
     ctx.random(&G_WIDE_ALG, &[], ctx.t(4_000, 100_000), 24);
     ctx.random(&G_FR, &[], ctx.t(4_000, 200_000), 400);
-    ctx.require(&["params:small-alphabet", "formats:small-alphabet", "params:random", "formats:random", "params:len>12", "params:alg-sweep", "path:GetInfo.0x0A", "path:GetAssertion.9"]);
+    ctx.random(&G_PL, &[], ctx.t(3_000, 150_000), 200);
+    ctx.random(&G_FL, &[], ctx.t(3_000, 150_000), 200);
+    ctx.require(&["params:small-alphabet", "formats:small-alphabet", "params:random", "formats:random", "params:len>12", "params:late:first-kept>=32", "formats:late:known>=32", "formats:late:unknown>=32", "params:alg-sweep", "path:GetInfo.0x0A", "path:GetAssertion.9"]);
 }
